@@ -26,8 +26,8 @@ theorem pinToTsvWrites_ok (sepC : Char) (sepP : Str) (ls out : List Str) :
   | cons h rest =>
     simp only [pinToTsvLines, pinToTsvWrites, pinAfterHeader, pinAfterHeaderWrites]
     split
-    · cases hb : pinBody sepC sepP (List.idxOf proteinsName (splitOn sepC (strip (strip h))))
-          (splitOn sepC (strip (strip h))).length rest with
+    · cases hb : pinBody sepC sepP (List.idxOf proteinsName (splitOn sepC (chomp (chomp h))))
+          (splitOn sepC (chomp (chomp h))).length rest with
       | error e =>
         have := (pinBodyWrites_error sepC sepP _ _ rest e).mp hb
         simp [Except.map, this]
@@ -38,7 +38,7 @@ theorem pinToTsvWrites_ok (sepC : Char) (sepP : Str) (ls out : List Str) :
 
 theorem pinToTsvWrites_error (sepC : Char) (sepP : Str) (ls : List Str) (e : PinErr)
     (h : pinToTsvLines sepC sepP ls = .error e) :
-    pinToTsvWrites sepC sepP ls = ((ls.head?.map (fun l => strip l ++ ['\n'])).toList, some e) := by
+    pinToTsvWrites sepC sepP ls = ((ls.head?.map (fun l => chomp l ++ ['\n'])).toList, some e) := by
   cases ls with
   | nil =>
     simp only [pinToTsvLines] at h
@@ -50,8 +50,8 @@ theorem pinToTsvWrites_error (sepC : Char) (sepP : Str) (ls : List Str) (e : Pin
     split at h
     · rename_i hc
       rw [if_pos hc]
-      cases hb : pinBody sepC sepP (List.idxOf proteinsName (splitOn sepC (strip (strip a))))
-          (splitOn sepC (strip (strip a))).length rest with
+      cases hb : pinBody sepC sepP (List.idxOf proteinsName (splitOn sepC (chomp (chomp a))))
+          (splitOn sepC (chomp (chomp a))).length rest with
       | error e' =>
         rw [hb] at h
         simp only [Except.map, Except.error.injEq] at h
@@ -126,6 +126,11 @@ theorem isDD_cons_space (c : Char) (l : Str) (hc : pyIsSpace c = true) : isDD (c
     intro e; subst e; revert hc; decide
   simp [isDD, ddName, List.isPrefixOf, Ne.symm this]
 
+/-- a line terminator character is not a letter of `DefaultDirection` -/
+theorem isEol_not_space (c : Char) (h : isEol c = true) : pyIsSpace c = true := by
+  simp only [isEol, Bool.or_eq_true, beq_iff_eq] at h
+  rcases h with rfl | rfl <;> decide
+
 /-- whitespace after a line does not make it a DefaultDirection line (nor hide one) -/
 theorem isDD_append_pad (l p : Str) (hp : ∀ c ∈ p, pyIsSpace c = true) : isDD (l ++ p) = isDD l := by
   induction p generalizing l with
@@ -189,12 +194,8 @@ theorem RowWF.isDD_line {sepC : Char} {idx nCol : Nat} {r : PinRow} (h : RowWF s
     (hdd : isDD (joinWith [sepC] r.fields) = false) : isDD (r.line sepC) = false := by
   unfold PinRow.line
   have hR := ((padOk_iff _).mp h.padR).1
-  have hL := ((padOk_iff _).mp h.padL).1
-  cases hl : r.padL with
-  | nil => simp only [List.nil_append]; rw [isDD_append_pad _ _ hR]; exact hdd
-  | cons c p =>
-    simp only [List.cons_append]
-    exact isDD_cons_space c _ (hL c (by rw [hl]; simp))
+  rw [h.padL, List.nil_append, isDD_append_pad _ _ (fun c hc => isEol_not_space c (hR c hc))]
+  exact hdd
 
 theorem DocWF.nFields_header {sepC : Char} {d : PinDoc} (h : DocWF sepC d) (hp : d.padsFree sepC = true) :
     nFields sepC (d.headerLine sepC) = d.cols.length := by
@@ -211,7 +212,7 @@ theorem DocWF.isValid_doc {sepC : Char} {d : PinDoc} (h : DocWF sepC d) (hp : d.
     simp only [PinDoc.padsFree, Bool.and_eq_true, List.all_eq_true] at hp
     exact hp.2
   unfold isValid renderPin
-  rw [pyLines_renderLines _ _ h.lines_no_nl (Or.inr h.last_ne_nil), isValidLines_addNl sepC h.sep]
+  rw [pyLines_renderLines _ _ h.lines_no_nl h.last_ok, isValidLines_addNl sepC h.sep]
   unfold PinDoc.lines ddAccepted PinDoc.rectangular
   cases hd : d.dd with
   | some x =>
@@ -244,10 +245,10 @@ theorem DocWF.pinToTsvLines {sepC : Char} {d : PinDoc} (h : DocWF sepC d) (sepP 
     Mk.pinToTsvLines sepC sepP (pyLines (renderPin sepC d))
       = .ok ((specTable sepP d).map (fun row => joinWith [sepC] row ++ ['\n'])) := by
   unfold renderPin
-  rw [pyLines_renderLines _ _ h.lines_no_nl (Or.inr h.last_ne_nil), pinToTsvLines_addNl]
+  rw [pyLines_renderLines _ _ h.lines_no_nl h.last_ok, pinToTsvLines_addNl]
   unfold PinDoc.lines
   simp only [Mk.pinToTsvLines, pinAfterHeader]
-  rw [h.strip_header, strip_joined_line _ _ h.edge,
+  rw [h.strip_header, h.chomp_cols,
     splitOn_joinWith sepC d.cols h.cols_ne_nil (fun f hf => (h.cols f hf).1)]
   have hc : d.cols.contains proteinsName = true := by simpa using h.proteins
   rw [if_pos hc, h.body sepP]
@@ -282,7 +283,7 @@ theorem verifyStepFs_convert_error (raw : Str) (old : Option Str) (e : PinErr)
     (hw : Mk.pinToTsvLines '\t' [':'] (pyLines (univNl raw)) = .error e) :
     verifyStepFs raw old
       = ({ pin := raw,
-           tsv := some (((pyLines (univNl raw)).head?.map (fun l => strip l ++ ['\n'])).getD []) }, some e) ∧
+           tsv := some (((pyLines (univNl raw)).head?.map (fun l => chomp l ++ ['\n'])).getD []) }, some e) ∧
     verifyStepFile raw = .error e := by
   have := pinToTsvWrites_error '\t' [':'] _ e hw
   refine ⟨?_, by simp [verifyStepFile, h, Except.bind, pinToTsv, hw, Except.map]⟩
